@@ -17,11 +17,41 @@ T = "backing_store::bump_table::BackedRobinhoodTable"
 
 
 def named_mu(fn, name):
+    """loop-carried local by *role* (local names are not relied on):
+       pos       the local used as index into the table (self.tbl / the slice parameter)
+       psl       (probe loops) the local compared with a stored element's `.psl`
+       searcher  (propagate) the element-typed local whose `.psl` is compared with the resident's"""
     te = fn.terms
-    for (h, l), init in te.mu_init.items():
-        if fn.local_name(l) == name:
-            return (h, l), init, te.mu_update.get((h, l), [])
-    return None, None, []
+    key = None
+
+    def table(t):
+        t = strip(t)
+        s_ = show(t)
+        return s_.endswith(".tbl") or t == ("param", 1) or (t[0] == "mu" and strip(te.mu_init.get((t[1], t[2]), ("top",))) == ("param", 1))
+    idx_mus = []
+    terms = [a for cs in te.calls for a in cs.args] + [c for (c, _) in te.switch_term.values()] + \
+            [u for us in te.mu_update.values() for u in us]
+    for t in terms:
+        for x in mir.subterms(t):
+            if x[0] == "index" and table(x[1]) and strip(x[2])[0] == "mu":
+                idx_mus.append(strip(x[2]))
+            if x[0] == "call" and x[1].name in ("index", "index_mut") and len(x[2]) == 2 and table(x[2][0]) and strip(x[2][1])[0] == "mu":
+                idx_mus.append(strip(x[2][1]))
+    pos = idx_mus[0] if idx_mus else None
+    if name == "pos":
+        key = (pos[1], pos[2]) if pos else None
+    else:
+        for b, (c, _) in te.switch_term.items():
+            c = strip(c)
+            if c[0] == "bin" and c[1] in ("Lt", "Le", "Gt", "Ge") and ".psl" in show(c):
+                for side in (strip(c[2]), strip(c[3])):
+                    if name == "psl" and side[0] == "mu" and side != pos:
+                        key = (side[1], side[2])
+                    if name == "searcher" and side[0] == "field" and side[2] == "psl" and strip(side[1])[0] == "mu":
+                        key = (strip(side[1])[1], strip(side[1])[2])
+    if key is None:
+        return None, None, []
+    return key, te.mu_init.get(key), te.mu_update.get(key, [])
 
 
 def canon(fn, t, roles):
@@ -124,7 +154,9 @@ def run(prog):
     tests = [canon(pr, strip(c), roles) for d, (c, vm) in te.switch_term.items() if strip(c)[0] == "bin" and "psl" in show(c)]
     if len(tests) != 1 or not re.match(r"^\( .*psl Lt S\.psl \)$", tests[0]):
         errs.append("displacement test is %s, expected `resident.psl < searcher.psl`" % tests)
-    offs = [u for (h, l), us in te.mu_update.items() if pr.local_name(l) == "off" for u in us]
+    offs = [u for (h, l), us in te.mu_update.items() for u in us
+            if re.search(r"\.psl Add 1 \)?$", canon(pr, u, roles)) or re.search(r"psl Add 1", canon(pr, u, roles))]
+    offs = [u for u in offs if not show(strip(u)).startswith("γ")]
     if not offs or not all(re.search(r"psl Add 1", canon(pr, u, roles)) for u in offs):
         errs.append("the carried element's probe length is not incremented by one per step")
     out.append(inst("RH", "%s:displace" % pr.npath, VIOLATION if errs else OK, pr, None,
